@@ -13,6 +13,7 @@ type propSpec struct {
 	Extras   []string // names of extra engines: "frame:write", "frame:read-selector-type", ...
 	Trusted  []string // assumption ids this property leans on
 	Rule     string
+	NoBattery bool // no executable oracle to replay against
 }
 
 var evalChain = []string{
